@@ -1,0 +1,33 @@
+//go:build verif
+// +build verif
+
+package federation
+
+import "github.com/samsarahq/thunder/graphql"
+
+// This file is only compiled with -tags verif.  It exposes, for the verification harness in /verif,
+// the plan and the normalised selection set the gateway computes for a query, and the planner swap the
+// schema poller performs.  It adds no behaviour.
+
+// VerifPlan returns the plan the executor's current planner makes for q.
+func (e *Executor) VerifPlan(q *graphql.Query) (*Plan, error) {
+	return e.getPlanner().planRoot(q)
+}
+
+// VerifFlatten returns the normalised (flattened) selection set of q.
+func (e *Executor) VerifFlatten(q *graphql.Query) (*graphql.SelectionSet, error) {
+	p := e.getPlanner()
+	var root graphql.Type
+	switch q.Kind {
+	case mutationString:
+		root = p.schema.Schema.Mutation
+	default:
+		root = p.schema.Schema.Query
+	}
+	return p.flattener.flatten(q.SelectionSet, root)
+}
+
+// VerifSetPlanner swaps the planner exactly as Executor.poll does after a schema refresh.
+func (e *Executor) VerifSetPlanner(p *Planner, schema *graphql.Schema) {
+	e.setPlanner(p, schema)
+}
